@@ -23,6 +23,8 @@ MANIFEST = {
             "coordinates; coordinates closer than the library's absolute 1e-8 tolerance are not enumerated (D11).",
     "technique": "bounded-exhaustive enumeration of inputs against an exact rational reference model",
 }
+MANIFEST["text"] += " " + (
+    'Added after the seeding waves: two non-dyadic scalings (x0.1, x1/3 + shift) under which parallel / collinear / touching configurations hold only up to rounding, and scale 2^-16 for the point/segment routines.')
 BUDGET = {"quick": 240, "thorough": 1500}
 RULE = ("cases = blocks (primitive, transform, first two grid points); every block enumerates all remaining grid "
         "points; one evaluation = one call of the primitive under test compared with exact rational geometry. "
